@@ -229,6 +229,17 @@ def legend(ck, F):
             for st in fn.blocks[t]["stmts"]:
                 if st["k"] == "assign" and st["place"]["local"] == 0 and st["rv"]["k"] == "use" and "int" in st["rv"]["op"]:
                     table[n] = st["rv"]["op"]["int"]
+    if not table and variants:
+        # `token_type as u32`: the legend index is the variant's discriminant, i.e. (no explicit discriminants on a field-less
+        # enum declared in this order) its position in the declaration
+        for (bb, i, pl, rv, sp) in fn.assigns():
+            if pl["local"] == 0 and not pl["proj"] and rv["k"] == "cast":
+                src = strip_expr(fn.expr(rv["op"]))
+                while src[0] in ("place", "discr") and src != ("param", 0):
+                    src = strip_expr(src[1])
+                if src == ("param", 0) and all(not v.get("fields") for v in tt["variants"]) and \
+                        all(v.get("discr", idx) == idx for idx, v in enumerate(tt["variants"])):
+                    table = {v["name"]: idx for idx, v in enumerate(tt["variants"])}
     # TOKEN_TYPES length: the array type in the const's type string
     n_legend = None
     for k, c in F.consts.items():
